@@ -33,6 +33,9 @@ def gen_config(rng, run_index, j):
         s["p"] = rng.choice([0.3, 1.0, 0.05])
     cfg = {"names": names, "storage": s, "seeds": [rng.getrandbits(32), rng.getrandbits(32)],
            "stream": rng.getrandbits(32), "perturb": rng.getrandbits(32), "T": rng.randint(12, 70)}
+    if kind == "tree" and n_cat == 0 and rng.random() < 0.6:
+        names = ["c0"] + names             # the categorical branch of the tree imputer needs a categorical feature
+        cfg["names"] = names
     if kind == "tree":
         s.update({"max_depth": rng.randint(1, 4), "leaf": rng.randint(1, 5), "grace": rng.choice([5, 10, 20]),
                   "tree_seed": rng.randint(0, 10 ** 6)})
@@ -94,7 +97,7 @@ def run_child(configs, mode):
 class C18Check(Check):
     prop = "C18"
     design_ref = "DESIGN.md section 4, C18"
-    n_batches = {"quick": 8, "thorough": 300}
+    n_batches = {"quick": 10, "thorough": 300}
     rule = ("each run = a batch of replay configurations (explainer x storage x imputer incl. TreeStorage/TreeImputer, seed "
             "pair, stream) executed twice in fresh interpreters: A plain, B perturbed (library activity before seeding, heap "
             "churn + gc, simulated clock with offset/skew/backward jumps); digests of storage contents and float.hex "
